@@ -3,6 +3,7 @@ import S2T.Gen.Router
 import S2T.Gen.Archive
 import S2T.Props.C09_Src
 import S2T.Props.C09_Filter
+import S2T.Props.C09_Attrs
 /-!
 # C09 — Archive processing is confined: no host file is read or written
 
